@@ -9,9 +9,9 @@ from mc.props.common2d import viol
 ID = "C10"
 LEVEL = "exploration"
 RULE = (
-    "every atom table of the product {1,2,3,62,63 chains} x {chain id length 1,2,4} x {residue numbers small, 9999, 10000, 12345, negative} x "
+    "every atom table of the product {1,2,3,62,63 chains} x {chain id length 1,2,4, one-letter id before long ids, long ids before a one-letter id} x {residue numbers small, 9999, 10000, 12345, negative} x "
     "{first serial 1, 99990, 100000} x {insertion codes none/some} x {1,2 models} x {1,2 atoms per residue} x {plain, with altloc/charges/HETATM} x {mmCIF-, PDB-derived}, produced by "
-    "the library's own parsers from independently emitted text, plus tables with 10000 residues in one chain and (thorough) more than 99999 atoms; "
+    "the library's own parsers from independently emitted text, plus tables with 10000 residues in one chain, 10002 / 9998 residues told apart by insertion codes, and (thorough) more than 99999 atoms; "
     "can_write_pdb must agree with the limits, a fitting table must be returned unchanged (same object), an unfittable one must raise ValueError, "
     "and any other outcome must be a table within limits with the same atoms in the same order and one-to-one, grouping-preserving chain and "
     "residue renamings that survives write_pdb + parse_pdb_atoms. non-trivial = table that does not already fit; distinct = distinct table."
@@ -34,6 +34,12 @@ def BOUNDS(tier):
 
 def chain_ids(n, length):
     base = string.ascii_uppercase + string.ascii_lowercase + string.digits + "!$%&*+"
+    if length == "mix-first":
+        # a one-letter id that is not the first letter of the alphabet, followed by long ids
+        return (["B"] + [base[i % 62] + "A" for i in range(n - 1)])[:n]
+    if length == "mix-last":
+        # long ids followed by one-letter ids that collide with the letters a positional renaming would hand out
+        return ([base[i % 62] + base[i % 62] for i in range(n - 1)] + ["A"])[-n:] if n > 1 else ["A"]
     if length == 1:
         return [base[i] for i in range(n)]
     out = []
@@ -68,15 +74,22 @@ def make_table(nch, idlen, resmode, serial0, icodes, models, apr, extras=False):
 
 
 def cases(tier):
-    for nch, idlen, resmode, serial0, icodes, models, apr in itertools.product((1, 2, 3, 62, 63), (1, 2, 4), ("small", "9999", "10000", "12345", "negative"),
+    for nch, idlen, resmode, serial0, icodes, models, apr in itertools.product((1, 2, 3, 62, 63), (1, 2, 4, "mix-first", "mix-last"), ("small", "9999", "10000", "12345", "negative"),
                                                                              (1, 99990, 100000), (False, True), (1, 2), (1, 2)):
       for extras in (False, True):
+        if nch >= 62 and (extras or models == 2 or apr == 2 or icodes or str(idlen).startswith("mix")):
+            continue  # the chain-count limit is independent of these dimensions; keeps the 62/63-chain tables few
+        if str(idlen).startswith("mix") and nch == 1:
+            continue
         yield dict(nch=nch, idlen=idlen, resmode=resmode, serial0=serial0, icodes=icodes, models=models, apr=apr, extras=extras, fmt="mmCIF")
-        if idlen == 1 and resmode in ("small", "9999", "negative") and serial0 + nch * 2 * apr * models < 99990:
+        if idlen in (1,) and resmode in ("small", "9999", "negative") and serial0 + nch * 2 * apr * models < 99990:
             yield dict(nch=nch, idlen=idlen, resmode=resmode, serial0=serial0, icodes=icodes, models=models, apr=apr, extras=extras, fmt="PDB")
     yield dict(big="chain-10000-residues", fmt="mmCIF")
-    yield dict(big="chain-9999-residues-long-id", fmt="mmCIF")
+    yield dict(big="chain-10002-residues-with-icodes", fmt="mmCIF")
     if tier != "quick":
+        yield dict(big="chain-9998-residues-with-icodes", fmt="mmCIF")
+    if tier != "quick":
+        yield dict(big="chain-9999-residues-long-id", fmt="mmCIF")
         yield dict(big="atoms-100001", fmt="mmCIF")
         yield dict(big="atoms-99998-plus-2-chains", fmt="mmCIF")
 
@@ -90,6 +103,15 @@ def big_table(kind):
     if kind == "chain-10000-residues":
         for i in range(10000):
             t.append(enumio.atom(i + 1, "P", "G", "AA", i + 1, "1.000", "2.000", "3.000", element="P"))
+    elif kind == "chain-10002-residues-with-icodes":
+        # 5001 numbers, each with and without insertion code: more than 9999 residues but fewer than 9999 distinct numbers
+        for i in range(5001):
+            for ic in (None, "A"):
+                t.append(enumio.atom(len(t) + 1, "P", "G", "AA", i + 1, "1.000", "2.000", "3.000", element="P", icode=ic))
+    elif kind == "chain-9998-residues-with-icodes":
+        for i in range(4999):
+            for ic in (None, "A"):
+                t.append(enumio.atom(len(t) + 1, "P", "G", "AA", i + 20000, "1.000", "2.000", "3.000", element="P", icode=ic))
     elif kind == "chain-9999-residues-long-id":
         for i in range(9999):
             t.append(enumio.atom(i + 1, "P", "G", "AA", i + 5000, "1.000", "2.000", "3.000", element="P"))
